@@ -20,7 +20,7 @@ CHECKS = {
  "C05": dict(
    technique="two solver engines over the real code: (1) region symbolic execution of BitMachine::exec_with_tracker's per-combinator dispatch from rustc MIR into SMT (z3 + cvc5 must agree) against the Bit Machine's reference instruction sequences, for all type widths; (2) Kani 0.68 -> CBMC 6.11 bounded model checking of the frame micro-operations on symbolic memory at symbolic bit offsets",
    category="model_checking",
-   text="Two layers, both solver-decided. Interpreter step: for every core combinator (iden, unit, injl, injr, take, drop, pair, comp, case, assertl, assertr, disconnect, witness, word, fail) the loop-free dispatch region of exec_with_tracker, executed from MIR with the node's and children's types as symbolic 64-bit widths related only by the combinator's typing rule, has exactly the effect the Bit Machine semantics prescribe (which bits are written/copied at which cursor positions, final cursor positions, frames allocated/moved/dropped, entries pushed on the call stack incl. Back/CopyFwd amounts; Final::bit_width/pad_left/pad_right executed from their own MIR), never panics on a well-typed node, and assertions/fail return their error. Micro-operations: on a machine over 5-10 symbolic bytes with every frame at every bit alignment, write_bit/skip/write_u8/write_bytes/copy(0..17 bits; thorough 0..33)/fwd/back/read_bit/peek and the frame iterators move exactly the right bits and nothing else, and the instruction sequences of comp, pair+take/drop, case under drop, injl/injr and disconnect deliver the right bits and restore the frame stacks. The same for each call-stack entry popped by the loop (MoveWriteFrameToRead, DropReadFrame, CopyFwd, Back, Goto) and for the exit path (the result is a value of the program's target type decoded from the rewound output frame). NOT covered: that these regions compose into the loop as written, the entry code before the loop, BitMachine::input, jets and exec_jet (C FFI), Value::from_padded_bits / iter_padded at program level (C10), whole-program runs under the solver (out of reach, DESIGN.md 1.4). A native family of 183 programs (real Bit Machine vs an independent big-step evaluator) validates the reference sequences on every run and replays solver counterexamples.",
+   text="Two layers, both solver-decided. Interpreter step: for every core combinator (iden, unit, injl, injr, take, drop, pair, comp, case, assertl, assertr, disconnect, witness, word, fail) the loop-free dispatch region of exec_with_tracker, executed from MIR with the node's and children's types as symbolic 64-bit widths related only by the combinator's typing rule, has exactly the effect the Bit Machine semantics prescribe (which bits are written/copied at which cursor positions, final cursor positions, frames allocated/moved/dropped, entries pushed on the call stack incl. Back/CopyFwd amounts; Final::bit_width/pad_left/pad_right executed from their own MIR), never panics on a well-typed node, and assertions/fail return their error. Micro-operations: on a machine over 5-10 symbolic bytes with every frame at every bit alignment, write_bit/skip/write_u8/write_bytes/copy(0..17 bits; thorough 0..33)/fwd/back/read_bit/peek and the frame iterators move exactly the right bits and nothing else, and the instruction sequences of comp, pair+take/drop, case under drop, injl/injr and disconnect deliver the right bits and restore the frame stacks. The same for each call-stack entry popped by the loop (MoveWriteFrameToRead, DropReadFrame, CopyFwd, Back, Goto) and for the exit path (the result is a value of the program's target type decoded from the rewound output frame). NOT covered: that these regions compose into the loop as written, the entry code before the loop, BitMachine::input, jets and exec_jet (C FFI), Value::from_padded_bits / iter_padded at program level (C10), whole-program runs under the solver (out of reach, DESIGN.md 1.4). A native family of 216 programs (real Bit Machine vs an independent big-step evaluator) validates the reference sequences on every run and replays solver counterexamples.",
    design_ref="DESIGN.md §2 C05",
    note="trusted: the reference instruction sequences (transcribed from the Simplicity technical report's Bit Machine, validated natively on every run), the models of the micro-operations as trace events in the MIR layer (their real code is what the Kani layer checks), Kani/CBMC, rustc MIR, z3/cvc5. An arm whose effect has a different shape from the reference (not just different amounts) is printed as `UNEXPLORED: property=C05 ...`, recorded under coverage.unexplored, and does not affect the exit status (none on the unchanged tree)."),
 
